@@ -3,6 +3,7 @@
 (* CMAP text, and of what the project's own reader returns for them.                                           *)
 (*  {"kind": "record", "ref": {id,len,x}, "qry": {id,len,x}, "rec": {...}, "kth": n}                            *)
 (*  {"kind": "readback", ..., "rb": {...}}                                                                       *)
+(*  {"kind": "readbackg", ..., "rb": {...}, "given": {...}}   the row object the writer was handed                 *)
 (* a record whose ids do not name input maps is recorded with ref/qry = {"id":0,"len":0,"x":[]}                  *)
 EXTENDS Xmap, Json, IOUtils
 
@@ -19,7 +20,8 @@ Verdict ==
                ELSE C01_Record_Failed(tr.ref, tr.qry, rec)
         c02 == IF c01 = {} THEN C02_Record_Failed(tr.ref, tr.qry, rec, tr.kth) ELSE {}
         c03 == IF c01 = {} THEN RowM!C03_Failed(rec.pairs, rec.ori = "-", rec.hit) ELSE {}
-        c18 == IF tr.kind = "readback" /\ c01 = {} THEN C18_Record_Failed(tr.ref, tr.qry, rec, tr.rb) ELSE {}
+        c18 == (IF tr.kind \in {"readback", "readbackg"} /\ c01 = {} THEN C18_Record_Failed(tr.ref, tr.qry, rec, tr.rb) ELSE {})
+               \cup (IF tr.kind = "readbackg" THEN C18_Given_Failed(tr.given, tr.rb) ELSE {})
         failed == Prefix("C01:", c01) \cup Prefix("C02:", c02) \cup Prefix("C03:", c03) \cup Prefix("C18:", c18)
         hdr == IF c01 = {} THEN HeaderImpl(tr.ref, tr.qry, rec.pairs, rec.ori = "-") ELSE [none |-> 0]
         drift == IF c01 # {} THEN {}
